@@ -85,6 +85,14 @@ def case_3d_cat_mr_mr():
     return "cube", [tabulate(sch, data)], [t], 0, 0
 
 
+def case_3d_alias_keyed_elements():
+    # element transforms keyed by ALIAS ("key": "alias") with a stale numeric-looking alias, shimmed once per table
+    sch = Schema("cat_x_mr_x_cat_keyed", [S.cat("t", 2, "first"), M3, B2], [("cat", 0), ("mr", 1), ("cat", 2)])
+    data = [((1 + i % 2, p, 1 + (i // 2) % 2), 1, None) for i, p in enumerate(_mr_data())]
+    t = {"rows_dimension": {"elements": {"key": "alias", "m_1": {"hide": True}, "2": {"hide": True}, "3": {"name": "X"}}}}
+    return "cube", [tabulate(sch, data)], [t], 0, 0
+
+
 def case_3d_mr_cat_cat():
     sch = Schema("mr_x_cat_x_cat", [N2, AV, B2], [("mr", 0), ("cat", 1), ("cat", 2)], weighted=True)
     data = [(((1, i % 2), 1 + i % 2, 1 + (i // 2) % 2), 1 + i % 2, None) for i in range(5)]
@@ -246,7 +254,7 @@ def case_catdate_strand():
 CASES = [case_strand_with_difference, case_slice_idless_insertions, case_cat_x_mr, case_mr_x_cat_sorted, case_3d_cat_mr_mr, case_3d_mr_cat_cat, case_ca, case_numarr,
          case_datetime, case_cat_view_insertions, case_json_text, case_tabbook, case_numeric_summary,
          case_ca_as_0th, case_single_col_filter, case_catdate_smoothing, case_catdate_counts_smoothing, case_catdate_strand,
-         case_sum_strand, case_sum_slice]
+         case_sum_strand, case_sum_slice, case_3d_alias_keyed_elements]
 SCHEMAS = {}
 
 # ------------------------------------------------------------------------ reading
@@ -340,6 +348,8 @@ class World:
             resps = [r if isinstance(r, str) else json.dumps(r) for r in self.resps]
         elif variant == "envelope":
             resps = [r if isinstance(r, str) else {"value": r} for r in self.resps]
+        elif variant == "json_envelope":
+            resps = [r if isinstance(r, str) else json.dumps({"value": r}) for r in self.resps]
         if self.kind == "cube":
             return Cube(resps[0], transforms=self.ts[0], population=self.pop, mask_size=self.mb)
         return CubeSet(resps, self.ts, self.pop, self.mb)
@@ -470,7 +480,7 @@ def alphabet(case_idx, tier):
         for n, a in CORE_METHODS:
             if ((t, k), n, a) in tab:
                 ev.append(("r", (t, k), n, a))
-    for variant in ("same", "json", "envelope"):
+    for variant in ("same", "json", "envelope", "json_envelope"):
         ev.append(("new", variant))
     if kind == "cubeset":
         for i in range(len(CASES[case_idx]()[1])):
@@ -844,7 +854,7 @@ def full_alphabet(ci):
     tab, n_parts, _d, plist = reference(ci)
     ev = [("r", k[0], k[1], k[2]) for k in tab if k[1] not in ("n_partitions", "partitions")]
     kind = CASES[ci]()[0]
-    ev += [("new", v) for v in ("same", "json", "envelope")]
+    ev += [("new", v) for v in ("same", "json", "envelope", "json_envelope")]
     ev += [("new_alt",)] if kind == "cube" else []
     return ev
 
